@@ -90,6 +90,7 @@ type record struct {
 	level   slog.Level
 	method  int
 	token   string
+	msgTail string // what follows the token in the message (long filler, characters needing quotes)
 	attrs   []slog.Attr
 	args    []any
 	enabled bool
@@ -329,7 +330,7 @@ func applyStep(l *logger.Logger, s step) *logger.Logger {
 // emit sends one record through l. Every call site is used by the run and by
 // the reference alike, so that source locations agree.
 func emit(l *logger.Logger, r *record) {
-	msg := r.token
+	msg := r.token + r.msgTail
 	switch r.method {
 	case 0:
 		switch r.level {
@@ -608,6 +609,19 @@ func sameParent(n *node, parent *node) bool {
 func (w *world) log(by string, n *node) {
 	ch := simrt.Choose
 	r := &record{id: len(w.recs), node: n, by: by, token: w.token("MSG") + "~"}
+	switch ch("log.msg", 10) {
+	case 0:
+		// a long MESSAGE (not attribute): around the 16 KiB limit of the buffer
+		// pool on both sides, and far beyond it
+		n := []int{16300, 16400, 17000, 40000, 9000}[ch("log.msg.n", 5)]
+		if n > 16384 {
+			simrt.Probe("message_over_pool_limit")
+		}
+		r.msgTail = strings.Repeat("M", n)
+	case 1:
+		simrt.Probe("message_needing_quotes")
+		r.msgTail = " a b=\"c\"\n\t\\ é\u2028 end"
+	}
 	r.level = []slog.Level{logger.LevelDebug, logger.LevelInfo, logger.LevelWarn, logger.LevelError, logger.LevelFatal}[ch("log.level", 5)]
 	r.method = ch("log.method", 5)
 	if r.method == 4 {
